@@ -653,6 +653,28 @@ theorem cellsOf_items (ts : List (Tok Seq Str)) : ∀ s, cellsOf s (ts.map itemO
       | error e => rfl
       | ok s' => exact ih s'
 
+theorem penOf_items (f : Style → Seq → Except Panic Style) (ts : List (Tok Seq Str)) :
+    ∀ s, penOf f s (ts.map itemOf) = penAfter f s ts := by
+  induction ts with
+  | nil => intro s; rfl
+  | cons t r ih =>
+    intro s
+    cases t with
+    | text g => simp only [List.map_cons, itemOf, penOf, penAfter, ih]
+    | sgr q =>
+      have hq : (q.map (·.map Int.ofNat)).map (·.map Int.toNat) = q := by
+        simp [List.map_map, Function.comp_def]
+      simp only [List.map_cons, itemOf, penOf, penAfter, hq, if_true]
+      cases f s q with
+      | error e => rfl
+      | ok s' => exact ih s'
+
+/-- The parser's item sequence for a printed token sequence is that token sequence. -/
+theorem tokenize_toks (cl : Str → Nat) (ts : List (Tok Seq Str)) (hg : Good cl ts) :
+    tokenize cl (bytesOfToks ts) = ts.map itemOf := by
+  unfold tokenize
+  exact scan_toks cl ts PState.init _ rfl rfl hg (Nat.le_refl _)
+
 /-- `ParseStyledString` on the printed token sequence is the token-level `parseStyled`. -/
 theorem parseStyledB_toks (cl : Str → Nat) (ts : List (Tok Seq Str)) (hg : Good cl ts) :
     parseStyledB cl (bytesOfToks ts) = parseStyled ts := by
